@@ -167,6 +167,17 @@ def battery(chain, payloads20, payloads32, what):
             if bytes(a.to_scriptPubKey()) != spk:
                 raise Viol('%s: to_scriptPubKey() of the %s address' % (what, kind), spk, bytes(a.to_scriptPubKey()))
             judge_text(chain, text, what)
+            if kind in ('p2wpkh', 'p2wsh'):
+                # the all-upper-case rendering is the same address (BIP173); parsing it must not colour how addresses are
+                # printed afterwards
+                up = text.upper()
+                if ref_parse(chain, up) is not None:
+                    got = classify(up)
+                    if got[:3] != ('ok', CLASS[kind], payload) or got[3] != text:
+                        raise Viol('%s: CBitcoinAddress(%r) (upper-case rendering) on %s' % (what, up, chain), ('ok', CLASS[kind], payload, text), got[:4])
+                    a2 = CBitcoinAddress.from_scriptPubKey(CScript(spk))
+                    if str(a2) != text or str(a) != text:
+                        raise Viol('%s: text of a %s address printed after an upper-case address was parsed' % (what, kind), text, str(a2))
             n += 1
     return n
 
@@ -414,6 +425,11 @@ class SingleFaults(Family):
                 yield (shard, 'ins', p, c)
         yield (shard, 'upper', 0, '')
         yield (shard, 'lower', 0, '')
+        if kind in ('p2wpkh', 'p2wsh'):
+            # look-alike characters inside the upper-case rendering (some lower-case or case-fold into ASCII)
+            for p in range(len(a)):
+                for c in UNICODE:
+                    yield (shard, 'subupper', p, c)
 
     def check(self, case):
         import bitcoin
@@ -422,7 +438,7 @@ class SingleFaults(Family):
         if bitcoin.params.NAME != ch:
             reset_globals()
             bitcoin.SelectParams(ch)
-        t = {'del': a[:p] + a[p + 1:], 'sub': a[:p] + c + a[p + 1:], 'ins': a[:p] + c + a[p:], 'upper': a.upper(), 'lower': a.lower()}[kind]
+        t = {'del': a[:p] + a[p + 1:], 'sub': a[:p] + c + a[p + 1:], 'ins': a[:p] + c + a[p:], 'upper': a.upper(), 'lower': a.lower(), 'subupper': a.upper()[:p] + c + a.upper()[p + 1:]}[kind]
         return kind + ':' + judge_text(ch, t, 'single fault'), True
 
 
